@@ -142,10 +142,10 @@ def check_local(desc):
     out.append(('fromlocal-tolocal', 0.0 if np.array_equal(back.data, coo.data) else float('inf'), None))
     if desc.get('facet'):
         fu, fv = FacetBasis(m, eu, intorder=io), FacetBasis(m, ev, intorder=io)
-        cf = form.elemental(fu, fv, **dict(par))
+        cf = BilinearForm(lambda *a: (2.0 - 1.0j) * f(*a), dtype=np.complex128).elemental(fu, fv, **dict(par))
         Lf = cf.tolocal()
         Ls = cf.tolocal(basis=fu)
-        exp = np.zeros((m.nelements,) + Lf.shape[1:])
+        exp = np.zeros((m.nelements,) + Lf.shape[1:], dtype=Lf.dtype)
         for k, fct in enumerate(fu.find):
             exp[m.f2t[0, fct]] += Lf[k]
         out.append(('tolocal-facet-sum', _rel(Ls, exp), None))
@@ -305,6 +305,10 @@ def check_dotinv(desc):
     ref[D] = x[D]
     out = [('dot', _rel(z, ref), None)]
     info = {'N': int(B.N), 'Nbfun': int(B.Nbfun)}
+    # complex data, real vector, rectangular (trial basis B, test basis B2): nothing may be lost, one entry per row
+    cooc = BilinearForm(lambda *a: (1.0 + 2.0j) * mass(*a), dtype=np.complex128).elemental(B)
+    zc = cooc.dot(x)
+    out.append(('dot-complex', _rel(zc, cooc.tocsr() @ x), None))
     if desc['eu'].startswith('DG:') or e.interior_dofs == B.Nbfun:
         inv = coo.inverse()
         Li, L = inv.tolocal(), coo.tolocal()
@@ -367,7 +371,39 @@ def check_compbasis(desc):
     r = 0.0
     for (xs, b), w in zip(cb.split(x), whole):
         r = max(r, _fields_equal(w, b.interpolate(xs)))
-    out = pre + [('compositebasis-blocks', _rel(A, K.toarray()), None), ('compositebasis-interp', r, None),
+    # the same form on the equivalent ElementComposite basis: equal up to the permutation given by split_indices
+    from skfem.element import ElementComposite
+    perm_err = 0.0
+    if not desc.get('restricted'):
+        ec = CellBasis(m, ElementComposite(e1, e2), intorder=io)
+        Aec = BilinearForm(f).assemble(ec, **dict(par)).toarray()
+        perm = np.concatenate(ec.split_indices())
+        perm_err = _rel(Aec[np.ix_(perm, perm)], A)
+    # shared DOFs (the @ operator, equal_dofnum): interpolate / split use the same vector for every component, and the
+    # matrix is the sum of the component blocks
+    eq_checks = []
+    if not desc.get('restricted'):
+        b1b = CellBasis(m, e1, intorder=io)
+        cbe = b1 @ b1b
+        xe = rng.integers(-8, 9, size=b1.N) / 4.0
+        we = cbe.interpolate(xe)
+        re_ = max(_fields_equal(we[0], b1.interpolate(xe)), _fields_equal(we[1], b1b.interpolate(xe)))
+        sp = cbe.split(xe)
+        ok = len(sp) == 2 and all(np.array_equal(xs, xe) for xs, _ in sp) and int(cbe.N) == int(b1.N)
+        ze = [b1.basis[0][0], b1b.basis[0][0]]
+        te = _terms(dict(desc, tseed=desc['tseed'] + 7), ze, ze)
+        fe = O1.bilinear_integrand(te, 2, False)
+        Ae = BilinearForm(fe).assemble(cbe, **dict(par)).toarray()
+        Se = 0.
+        for a in range(2):
+            for b in range(2):
+                def feab(u, v, w, a=a, b=b):
+                    return fe(*_inject(ze, b, u), *_inject(ze, a, v), w)
+                Se = Se + BilinearForm(feab).assemble(b1, b1b, **dict(par)).toarray()
+        eq_checks = [('compositebasis-equal-dofnum-interp', re_ if ok else float('inf'), None),
+                     ('compositebasis-equal-dofnum-matrix', _rel(Ae, Se), None)]
+    out = pre + eq_checks + [('compositebasis-blocks', _rel(A, K.toarray()), None), ('compositebasis-interp', r, None),
+                 ('compositebasis=elementcomposite-permuted', perm_err, None),
            ('bmat-blocks', 0.0 if list(K.blocks) == [b1.N] else float('inf'), {'got': list(map(int, K.blocks)), 'expected': [int(b1.N)]})]
     return out, {'terms': terms, 'N': [int(b1.N), int(b2.N)]}
 
@@ -379,6 +415,10 @@ CHECKS = {'local': check_local, 'split': check_split, 'block': check_block, 'par
 def _key(desc, name):
     if name == 'tolocal':
         return 'tolocal:local-matrix!=cell-block'
+    if name.startswith('compositebasis-equal-dofnum'):
+        return 'compositebasis:equal-dofnum'
+    if name in ('dot-complex', 'tolocal-facet-sum'):
+        return f'coo:{name}'
     if name == 'compositebasis-element-count':
         return 'compositebasis:accepts-different-element-counts'
     if name in ('N=sum-of-component-N', 'Nbfun=bfun-counts'):
@@ -414,7 +454,17 @@ def fixed_cases():
             k += 1
             out.append({'check': check, 'mesh': mesh, 'mseed': 1000 + k, 'seed': 2000 + k, 'intorder': 3, 'tseed': 3000 + k,
                         'nterms': 2, 'elem': elem, 'basis': 'cell'})
-    for mesh, eu, ev, restricted in (('tri-struct', 'ElementTriP2', 'ElementTriP1', True), ('tet-struct', 'ElementTetP1', 'ElementTetP2', False),
+    for mesh, elem, basis in (('tri-struct', 'V:ElementTriP1', 'ifacet1'), ('quad-jiggled', 'C:ElementQuad2+ElementQuad1+ElementQuad0', 'cells'),
+                              ('tet-struct', 'C:ElementTetP2+ElementTetP1', 'facets'), ('tri-delaunay', 'C:ElementTriP2+ElementTriP1', 'ifacet1')):
+        k += 1
+        out.append({'check': 'split', 'mesh': mesh, 'mseed': 1000 + k, 'seed': 2000 + k, 'intorder': 3, 'tseed': 3000 + k, 'nterms': 1,
+                    'elem': elem, 'basis': basis})
+    for mesh, eu, ev in (('tri-struct', 'ElementTriP2', 'ElementTriP1'), ('tet-struct', 'ElementTetP1', 'ElementTetP2'), ('quad-jiggled', 'ElementQuad2', 'ElementQuad2')):
+        k += 1
+        out.append({'check': 'local', 'mesh': mesh, 'mseed': 1000 + k, 'seed': 2000 + k, 'intorder': 3, 'tseed': 3000 + k, 'nterms': 2,
+                    'eu': eu, 'ev': ev, 'facet': mesh != 'tet-struct'})
+    for mesh, eu, ev, restricted in (('tri-struct', 'V:ElementTriP1', 'ElementTriP1', False), ('tri-struct', 'ElementTriP1', 'ElementTriMorley', False),
+                                     ('tri-struct', 'ElementTriP2', 'ElementTriP1', True), ('tet-struct', 'ElementTetP1', 'ElementTetP2', False),
                                      ('quad-jiggled', 'ElementQuad1', 'ElementQuad2', True)):
         k += 1
         out.append({'check': 'compbasis', 'mesh': mesh, 'mseed': 1000 + k, 'seed': 2000 + k, 'intorder': 3, 'tseed': 3000 + k,
@@ -427,7 +477,7 @@ def run(ctx):
     warnings.simplefilter('ignore')
     rng = ctx.rng
     fixed = fixed_cases()
-    n = ctx.n(160, 1600)
+    n = ctx.n(110, 1600)
     worst = 0.0
     for c in range(n + len(fixed)):
         desc = fixed[c] if c < len(fixed) else gen_case(rng)
